@@ -240,6 +240,9 @@ def guarded_inserts(ctx: Ctx):
                             if isinstance(c, ast.Compare) and any(isinstance(o, (ast.In, ast.NotIn)) for o in c.ops) and \
                                     any(isinstance(x, ast.Name) and x.id == reg for x in c.comparators):
                                 guarded = True
+                            if isinstance(c, ast.Call) and isinstance(c.func, ast.Attribute) and c.func.attr in ("get", "__contains__", "keys") \
+                                    and isinstance(c.func.value, ast.Name) and c.func.value.id == reg:
+                                guarded = True
                 ctx.decide(guarded, "R17.1", f"{key}::{norm(n.targets[0])}", "insert guarded by a membership test on the registry",
                            f"`{norm(n)}` is not dominated by a membership test on `{reg}`: a second definition of the same name silently "
                            f"replaces the first while earlier references keep pointing at the old object", where=where(fi, n))
